@@ -162,7 +162,7 @@ def expected_words(w, sb):
         return [x.replace("\\ ", " ") for x in range_expand(text)]
     if kind == "tilde":
         if text == "~" or text.startswith("~/"):
-            return [sb.home + text[1:]]
+            return [(_home_value(sb) if _home else sb.home) + text[1:]]
         return [text]
     if kind == "brace-glob":
         # the alternatives first, then each resulting word is a pattern of its own
@@ -191,6 +191,11 @@ def write_word(w):
 # -------------------------------------------------------------- running
 
 _delivery = "argv"
+_home = None        # None: the home directory the shell was started with; "root": `/`; "slash": that directory with a trailing slash
+
+
+def _home_value(sb):
+    return "/" if _home == "root" else sb.home.rstrip("/") + "/"
 
 
 def run_line(words, pop):
@@ -202,7 +207,7 @@ def run_line(words, pop):
         want += expected_words(w, sb)
     if _delivery == "for":
         # the same words as the list of a `for` loop in a script: one iteration per word, in order
-        line = "for v in " + " ".join(write_word(w) for w in words) + "\n    vp_argv I \"$v\"\ndone\n"
+        line = ("export HOME=%s\n" % _home_value(sb) if _home else "") + "for v in " + " ".join(write_word(w) for w in words) + "\n    vp_argv I \"$v\"\ndone\n"
         path = os.path.join(sb.root, "forlist.sh")
         with open(path, "w") as f:
             f.write(line)
@@ -214,7 +219,7 @@ def run_line(words, pop):
         else:
             recs = [{"argv": ["vp_argv"] + [x["argv"][2] for x in its]}]
         return line, r, recs, want
-    line = "vp_argv " + " ".join(write_word(w) for w in words)
+    line = ("export HOME=%s ; " % _home_value(sb) if _home else "") + "vp_argv " + " ".join(write_word(w) for w in words)
     r = run_cicada(sb, ["-c", line], timeout=15.0)
     recs = [x for x in sb.records() if x["name"] == "vp_argv"]
     return line, r, recs, want
@@ -238,12 +243,22 @@ def symptom(r, recs, want):
 
 
 def judge(case):
-    global _delivery
+    global _delivery, _home
     _delivery = case.get("delivery", "argv")
+    _home = case.get("home")
     try:
         v, sig, res = _judge(case)
+        if v == "violated" and _home:
+            # does it fail with the ordinary home directory as well?  if not, the home directory matters: sign that
+            _home = None
+            v0, sig0, res0 = _judge(case)
+            if v0 == "held":
+                sig = "C12:tilde:home-directory-is-%s:%s" % ("the-root-directory" if case["home"] == "root" else "written-with-a-trailing-slash", sig.split(":")[-1])
+            else:
+                v, sig, res = v0, sig0, res0
     finally:
         _delivery = "argv"
+        _home = None
     if v == "violated" and case.get("delivery") == "for":
         sig = sig + ":as-for-list"
     return v, sig, res
@@ -314,6 +329,11 @@ def gen_word(rng):
         order = ["nested", "multi-group", "empty-alt"]
         main = next((x for x in order if x in f), "simple")
         return {"kind": "brace", "text": t, "feat": main + ("+affix" if f & {"prefix", "suffix", "infix"} else "")}
+    if k < 0.33:
+        # a brace that is never closed stands before (or after) a complete group: it is text, the group still expands
+        t, f = gen_brace(rng)
+        t = rng.choice(["{" + t, "{x" + t, "a{b" + t, "{{" + t, t + "{c", "{" + t + "{"])
+        return {"kind": "brace", "text": t, "feat": "lone-open-brace-next-to-a-complete-group"}
     if k < 0.38:
         t = rng.choice(["{a}", "{a,b", "a,b}", "{}", "}{", "{a}{b}", "x{a}y", "{,", "a{b", "{a}b,c", "{a},{b}", "x{a},y{b}", "a,{b}", "{a}{b,c}", "{a,b}{c}"])
         return {"kind": "brace", "text": t, "feat": "negative-no-list"}
@@ -365,6 +385,9 @@ def gen_case(rng):
             if w["kind"] == "glob" or rng.random() < 0.3:
                 t = rng.choice(DEEP_PATTERNS)
                 w.update(kind="glob", text=t, feat="deep-pattern=" + t)
+    if rng.random() < 0.12 and not any(w["kind"] == "glob" and w["text"].startswith("~") for w in c["words"]):
+        # the home directory is the root directory, or is written with a trailing slash (set by `export HOME=...` first)
+        c["home"] = rng.choice(["root", "slash"])
     if c.get("home") and any(w["kind"] == "glob" and w["text"].startswith("~") for w in c["words"]):
         del c["home"]
     return c
@@ -383,8 +406,8 @@ def run(tier, seed):
     cicada = common.build_cicada("debug")
     rep = Report("C12", tier, seed)
     rep.rule = ("lines of 1..4 words, each a brace term from a grammar (depth<=3, <=4 alternatives, <=3 groups, empty "
-                "alternatives, prefix/suffix text; unbalanced / comma-less negatives), a range (negative, descending, "
-                "stepped, degenerate bounds, surrounding text), a tilde form (leading and non-leading), a glob pattern "
+                "alternatives, prefix/suffix text; unbalanced / comma-less negatives, a never-closed brace next to a complete group), a range (negative, descending, "
+                "stepped, degenerate bounds, surrounding text), a tilde form (leading and non-leading; 12% of the lines with HOME set to / or to a path with a trailing slash first), a glob pattern "
                 "against 5 directory populations (hidden files, names with blanks, subdirectories, no match), or a "
                 "quoted/plain neighbour.  Non-trivial = always; distinct by (line, population).")
     rep.assumptions = ["reference expander in lib/c12.py written from the statement; a word that would expand to an "
